@@ -13,6 +13,7 @@ GENERATORS = [
     ("GenTermination.v", "tr_termination"),
     ("GenWelford.v", "tr_welford"),
     ("GenRegex.v", "tr_regex"),
+    ("GenAdapters.v", "tr_adapters"),
     ("GenFactsKill.v", "tr_facts:generate_kill"),
     ("GenFactsPersist.v", "tr_facts:generate_persist"),
     ("GenFactsRewrite.v", "tr_facts:generate_rewrite"),
